@@ -804,10 +804,31 @@ def rule_A_SCHEMA(ctx, repo):
     import re
     m = repo.mod('_archives')
     n = 0
+    # string operands of `"create table ... %s%s" % (table, self._columns)`: a column list kept in a class attribute / module constant is part of the statement
+    class_strs = {}
+    for ci_ in m.classes.values():
+        for k_, v_ in ci_.attrs.items():
+            if isinstance(v_, ast.Constant) and isinstance(v_.value, str):
+                class_strs.setdefault(k_, v_.value)
+    fmt_extra = {}
+    for node in ast.walk(m.tree):
+        if isinstance(node, ast.BinOp) and isinstance(node.op, ast.Mod) and isinstance(node.left, ast.Constant) and isinstance(node.left.value, str):
+            ops = node.right.elts if isinstance(node.right, ast.Tuple) else [node.right]
+            extra = []
+            for o_ in ops:
+                if isinstance(o_, ast.Attribute) and o_.attr in class_strs:
+                    extra.append(class_strs[o_.attr])
+                elif isinstance(o_, ast.Name) and isinstance(m.consts.get(o_.id), ast.Constant) and isinstance(m.consts[o_.id].value, str):
+                    extra.append(m.consts[o_.id].value)
+                elif isinstance(o_, ast.Constant) and isinstance(o_.value, str):
+                    extra.append(o_.value)
+            fmt_extra[id(node.left)] = ' '.join(extra)
     for node in ast.walk(m.tree):
         if not (isinstance(node, ast.Constant) and isinstance(node.value, str)):
             continue
         txt = node.value
+        if re.search(r'create\s+table\b', txt, re.I) and not re.search(r'create\s+table\b[^()]*\(([^()]*)\)', txt, re.I):
+            txt = txt + ' ' + fmt_extra.get(id(node), '')
         mt = re.search(r'create\s+table\b[^()]*\(([^()]*)\)', txt, re.I)
         if not mt:
             continue
@@ -1941,3 +1962,157 @@ def rule_A_FNAME(ctx, repo, cache, aliasing=False):
                              wh(ci, fi.node.lineno), render_path(o))
         if n == 0:
             raise AnalysisError('%s._fname has no return path' % lab)
+
+
+SIB_READERS = ('__getitem__', 'get', 'pop', 'setdefault', '__asdict__', 'popitem')
+SIB_WRITERS = ('__setitem__', 'update', 'setdefault')
+DECODE_CALLS = ('load', 'loads', 'decode', 'decompress', 'read_zfile', 'literal_eval')
+ENCODE_CALLS = ('dump', 'dumps', 'encode', 'compress', 'write_zfile')
+
+
+def _self_closure(ci, name, calls_of_interest):
+    """methods of the class reachable from method `name` through self.m(...) / self[k] / self[k] = v, and whether a call of interest occurs on the way"""
+    seen, todo, direct = set(), [name], set()
+    while todo:
+        cur = todo.pop()
+        if cur in seen or cur not in ci.methods:
+            continue
+        seen.add(cur)
+        fn = ci.methods[cur].node
+        selfn = fn.args.args[0].arg if fn.args.args else 'self'
+        for n in ast.walk(fn):
+            if isinstance(n, ast.Call):
+                f = n.func
+                if isinstance(f, ast.Attribute) and isinstance(f.value, ast.Name) and f.value.id == selfn:
+                    todo.append(f.attr)
+                else:
+                    nm = f.attr if isinstance(f, ast.Attribute) else f.id if isinstance(f, ast.Name) else None
+                    if nm in calls_of_interest:
+                        direct.add(cur)
+            elif isinstance(n, ast.Subscript) and isinstance(n.value, ast.Name) and n.value.id == selfn:
+                todo.append('__getitem__' if isinstance(n.ctx, ast.Load) else '__setitem__' if isinstance(n.ctx, ast.Store) else '__delitem__')
+    return seen, direct
+
+
+def rule_A_SIBLINGS(ctx, repo):
+    """A-CODEC (sibling readers / writers agree, Engler-style cross-check).  Within one archive class the value that `__getitem__` returns passes through
+    the class's decoding routines (the methods on its path that call load / loads / decode ...).  Every other value-returning reader of the dict
+    interface - get, pop, setdefault, popitem, __asdict__ (what cache.load() and dict(archive) use) - must pass through the same routines, or it hands
+    out the stored representation (pickled bytes) instead of the value; likewise every writer passes through the encoders `__setitem__` uses."""
+    m = repo.mod('_archives')
+    n = 0
+    for lab, ci in sorted(m.classes.items()):
+        if 'archive' not in ci.name or '__getitem__' not in ci.methods:
+            continue
+        for kind, base, sibs, calls in (('decoding', '__getitem__', SIB_READERS, DECODE_CALLS), ('encoding', '__setitem__', SIB_WRITERS, ENCODE_CALLS)):
+            if base not in ci.methods:
+                continue
+            reach, need = _self_closure(ci, base, calls)
+            # routines shared with the other direction do not count (a _lookup that is also used to store is judged once, as a decoder)
+            if not need:
+                ctx.ob('A-CODEC', '%s: %s applies no %s routine of its own' % (lab, base, kind), True)
+                continue
+            for s in sibs:
+                if s == base or s not in ci.methods:
+                    continue
+                if kind == 'encoding' and s == 'setdefault':
+                    pass
+                r2, d2 = _self_closure(ci, s, calls)
+                missing = sorted(x for x in need if x not in r2)
+                # a sibling that is itself such a routine (file_archive.__asdict__ reads and decodes the whole file) is fine
+                ok = not missing or s in need
+                n += 1
+                ctx.ob('A-CODEC', '%s.%s reaches the %s routines of %s (%s)' % (lab, s, kind, base, ','.join(sorted(need))), ok)
+                if not ok:
+                    ctx.fail('A-CODEC', mq(ci, s), '%s without %s' % (s, ','.join(missing)),
+                             '%s.%s %s: %s goes through %s, %s does not. The two siblings of the dict interface disagree about the representation of a '
+                             'value - %s' % (lab, s, 'returns what is stored without decoding it' if kind == 'decoding' else 'stores the value without encoding it',
+                                             base, ', '.join(missing), s,
+                                             'cache.load() / dict(archive) / pop() hand out pickled bytes where d[key] returns the object' if kind == 'decoding'
+                                             else 'a later d[key] tries to decode what was never encoded'), wh(ci, ci.methods[s].node.lineno))
+    if n < 8:
+        raise AnalysisError('A-CODEC siblings: only %d reader / writer pairs compared (dir_archive, file_archive and hdf_archive alone give more)' % n)
+
+
+NOT_DATA_ROOTS = ('kwds', 'kwargs', 'globals', 'locals', 'state', 'config', 'environ', 'os', 'sys', 'options', 'settings')
+
+
+def rule_A_NONE_ABSENT(ctx, repo, modules=('_archives',)):
+    """A-KEYERR (presence is never decided from the value).  `d.get(k)` answers None both for an absent key and for a key whose stored value is None (a
+    function that returns None is memoised like any other).  A method of an archive / cache class that binds `x = <data>.get(k)` (no default, or the
+    default None) and then tests `x is None`, `x == None` or the truth of x treats a stored None (or 0, '', [] for the truth test) as "nothing stored":
+    setdefault overwrites it, load skips it, lookup raises KeyError, dump drops it.  Presence is asked with `in`, KeyError or a private sentinel default."""
+    n_get = 0
+    for mn in modules:
+        m = repo.mod(mn)
+        for fn in [x for x in ast.walk(m.tree) if isinstance(x, ast.FunctionDef)]:
+            def is_plain_get(c):
+                if not (isinstance(c, ast.Call) and isinstance(c.func, ast.Attribute) and c.func.attr == 'get' and not c.keywords):
+                    return False
+                if any(isinstance(a, ast.Starred) for a in c.args):
+                    return False
+                if len(c.args) == 2 and not (isinstance(c.args[1], ast.Constant) and c.args[1].value is None):
+                    return False
+                if len(c.args) not in (1, 2):
+                    return False
+                root = c.func.value
+                while isinstance(root, (ast.Attribute, ast.Call, ast.Subscript)):
+                    root = root.func if isinstance(root, ast.Call) else root.value
+                if isinstance(root, ast.Name) and root.id in NOT_DATA_ROOTS:
+                    return False
+                rv = c.func.value
+                if isinstance(rv, ast.Attribute) and rv.attr in ('__state__', '__dict__', '_config', 'state'):
+                    return False
+                if isinstance(rv, ast.Subscript):      # self.__state__['config'].get(...)
+                    return False
+                return True
+            got = {}
+            for n in walk_own(fn):
+                if isinstance(n, ast.Assign) and len(n.targets) == 1 and isinstance(n.targets[0], ast.Name) and is_plain_get(n.value):
+                    got[n.targets[0].id] = n
+                elif isinstance(n, ast.NamedExpr) and is_plain_get(n.value):
+                    got[n.target.id] = n
+            n_get += sum(1 for n in walk_own(fn) if is_plain_get(n))
+            def is_val(e):
+                return (isinstance(e, ast.Name) and e.id in got) or is_plain_get(e) or (isinstance(e, ast.NamedExpr) and is_plain_get(e.value))
+            bad = []
+            for n in walk_own(fn):
+                if isinstance(n, ast.Compare) and len(n.ops) == 1 and isinstance(n.ops[0], (ast.Is, ast.IsNot, ast.Eq, ast.NotEq)):
+                    a, b = n.left, n.comparators[0]
+                    for x, y in ((a, b), (b, a)):
+                        if is_val(x) and isinstance(y, ast.Constant) and y.value is None:
+                            bad.append((n, 'compared with None'))
+                tests = []
+                if isinstance(n, (ast.If, ast.While, ast.IfExp)):
+                    tests.append(n.test)
+                elif isinstance(n, ast.Assert):
+                    tests.append(n.test)
+                for t in tests:
+                    todo = [t]
+                    while todo:
+                        e = todo.pop()
+                        if isinstance(e, ast.BoolOp):
+                            todo.extend(e.values)
+                        elif isinstance(e, ast.UnaryOp) and isinstance(e.op, ast.Not):
+                            todo.append(e.operand)
+                        elif is_val(e):
+                            bad.append((e, 'tested for truth'))
+            ctx.ob('A-KEYERR', None, not bad) if (got or bad) else None
+            for node, how in bad[:1]:
+                ctx.fail('A-KEYERR', '%s::%s' % (m.rel, fn.name), 'presence decided from the value of get()',
+                         '%s (%s:%d) takes `%s` and the result is %s to decide whether something is stored: a stored None%s is then handled as if the key were '
+                         'absent (overwritten by setdefault / skipped by load or dump / reported as KeyError), although a function result None is a result like '
+                         'any other' % (fn.name, m.rel, node.lineno, '.get(key)', how, ' (or any falsy value)' if how.endswith('truth') else ''),
+                         '%s:%d' % (m.rel, node.lineno))
+    ctx.ob('A-KEYERR', 'no presence test on the value of a default-less get() (%d get() calls on data inspected)' % n_get, True)
+
+
+def walk_own(fn):
+    """nodes of a function body without the bodies of nested functions"""
+    todo = list(fn.body)
+    while todo:
+        n = todo.pop()
+        yield n
+        if isinstance(n, (ast.FunctionDef, ast.AsyncFunctionDef, ast.Lambda, ast.ClassDef)):
+            continue
+        todo.extend(ast.iter_child_nodes(n))
